@@ -15,6 +15,11 @@ perform_kramers_kronig_test(num_RC=n, num_F_ext_evaluations=0, log_F_ext=x, num_
               the accessor is only defined for ascending time constants)
   completion  the call returns (any exception is a violation, inside or outside the gate)
 
+Option types.  Every second instance passes its options as NumPy scalars (numpy.bool_ add_capacitance / add_inductance /
+admittance, numpy.int64 num_RC / num_RCs / num_procs, numpy.float64 log_F_ext) on every route: the library's own type
+checks accept them, so type variants of one value must give the same result.  A NumPy type that the library refuses up
+front (explicit TypeError) is counted ("options:numpy_types_refused") and the call repeated with Python types.
+
 Routes.  Every instance goes through perform_kramers_kronig_test; a fixed share (about 1/40 each, chosen from the case
 index) ALSO goes through the other public entry points that perform a fixed-extension test, with the same clauses:
 perform_exploratory_kramers_kronig_tests(num_RCs=[n-1, n, n+1]) (the result with n RC elements is picked from the list)
@@ -57,7 +62,7 @@ RULE = (
     "or 2 (real/imaginary) time constants per decade with #unknowns <= 0.75 #equations, variables with sign patterns "
     "(all +, all -, alternating, random), 0..6 decades spread (in contribution or in raw parameter space), overall scale "
     "1e-4..1e4, 8% with exact zeros; cnls: parameters within a decade of its start values, random signs of R_k|C_k. "
-    "Spectrum from the harness's own model. About 1/40 of the linear instances each are additionally run through "
+    "Spectrum from the harness's own model. Every second instance passes its options as NumPy scalars (bool_, int64, float64). About 1/40 of the linear instances each are additionally run through "
     "perform_exploratory_kramers_kronig_tests(num_RCs=[n-1,n,n+1]) and evaluate_log_F_ext(num_RCs=[n]). The deciding comparison (residuals, parameters) runs on instances inside "
     "the conditioning gate; tau/reported log_F_ext/bookkeeping/completion on all. A case is non-trivial when inside the gate; distinct = "
     "distinct (cell, N, num_RC, log_F_ext, variables) keys."
@@ -250,7 +255,27 @@ class RouteResultMissing(Exception):
     pass
 
 
-def run_route(f, Z, test, num_RC, add_c, add_l, adm, log_F_ext, route="main"):
+NP_REFUSED = {}  # option-type refusals seen in this process: "<route>:<ExcText>" -> count (run_case reports the delta)
+
+
+def run_route(f, Z, test, num_RC, add_c, add_l, adm, log_F_ext, route="main", np_types=False):
+    """np_types=True: the same option values are passed as NumPy scalars (numpy.bool_ flags, numpy.int64 num_RC / num_RCs /
+    num_procs, numpy.float64 log_F_ext) - type variants of one value must give the same result.  If the library refuses
+    such a type up front (explicit `raise TypeError` in pyimpspec), that is counted and the call is repeated with Python
+    types (not a violation)."""
+    if np_types:
+        try:
+            return _run_route(f, Z, test, num_RC, add_c, add_l, adm, log_F_ext, route, True)
+        except TypeError as e:
+            o = monitors.exception_origin(e)
+            if not (o["in_tree"] and o["is_raise"]):
+                raise
+            k = f"{route}:{o['func']}"
+            NP_REFUSED[k] = NP_REFUSED.get(k, 0) + 1
+    return _run_route(f, Z, test, num_RC, add_c, add_l, adm, log_F_ext, route, False)
+
+
+def _run_route(f, Z, test, num_RC, add_c, add_l, adm, log_F_ext, route, np_types):
     """One KramersKronigResult for (num_RC, log_F_ext fixed, num_F_ext_evaluations=0) through one of the public routes:
       main         perform_kramers_kronig_test(num_RC=n)
       exploratory  perform_exploratory_kramers_kronig_tests(num_RCs=[n-1, n, n+1] within the legal range); the result with
@@ -261,20 +286,21 @@ def run_route(f, Z, test, num_RC, add_c, add_l, adm, log_F_ext, route="main"):
     from pyimpspec.analysis.kramers_kronig import evaluate_log_F_ext, perform_exploratory_kramers_kronig_tests
 
     n = int(num_RC)
-    kw = dict(test=test, add_capacitance=bool(add_c), add_inductance=bool(add_l), admittance=bool(adm),
-              log_F_ext=float(log_F_ext), num_F_ext_evaluations=0, num_procs=1)
+    B, I, F = (np.bool_, np.int64, np.float64) if np_types else (bool, int, float)
+    kw = dict(test=test, add_capacitance=B(add_c), add_inductance=B(add_l), admittance=B(adm),
+              log_F_ext=F(log_F_ext), num_F_ext_evaluations=0, num_procs=I(1))
     with warnings.catch_warnings():
         warnings.simplefilter("ignore")
         data = DataSet(f, Z)
         if route == "main":
-            return perform_kramers_kronig_test(data, num_RC=n, **kw)
+            return perform_kramers_kronig_test(data, num_RC=I(n), **kw)
         N = len(f)
         top = min(2 * N - 5, N + 10) if test.endswith("-inv") else 2 * N - 5
         if route == "exploratory":
-            lst = [m for m in (n - 1, n, n + 1) if 2 <= m <= top]
+            lst = [I(m) for m in (n - 1, n, n + 1) if 2 <= m <= top]
             tests, _ = perform_exploratory_kramers_kronig_tests(data, num_RCs=lst, **kw)
         elif route == "evaluate":
-            ev = evaluate_log_F_ext(data, num_RCs=[n], **kw)
+            ev = evaluate_log_F_ext(data, num_RCs=[I(n)], **kw)
             if len(ev) != 1 or abs(float(ev[0][0]) - float(log_F_ext)) > 1e-12:
                 raise RouteResultMissing(f"evaluate_log_F_ext returned {len(ev)} evaluation(s) at log_F_ext={[float(e[0]) for e in ev][:3]}, requested one at {log_F_ext}")
             tests = ev[0][1]
@@ -290,7 +316,8 @@ def observe(inst, route="main"):
     """Run the real test on a concrete instance."""
     f = np.array(inst["f"], dtype=float)
     Z = np.array([complex(a, b) for a, b in inst["Z"]])
-    return run_route(f, Z, inst["test"], inst["num_RC"], inst["add_c"], inst["add_l"], inst["adm"], inst["log_F_ext"], route)
+    return run_route(f, Z, inst["test"], inst["num_RC"], inst["add_c"], inst["add_l"], inst["adm"], inst["log_F_ext"], route,
+                     bool(inst.get("np_types", False)))
 
 
 def _gate_of(inst):
@@ -331,7 +358,7 @@ def check_instance(inst, route=None):
 
     def bad(mech, msg, key=None):
         viol.append({"key": key or f"C07/{mech}:{test}/{rep}{rsfx}",
-                     "msg": f"[{cname} N={len(f)} f={f.min():.3g}..{f.max():.3g} Hz num_RC={n} log_F_ext={x:.3g} route={route}] {msg}",
+                     "msg": f"[{cname} N={len(f)} f={f.min():.3g}..{f.max():.3g} Hz num_RC={n} log_F_ext={x:.3g} route={route}{' numpy-typed options' if inst.get('np_types') else ''}] {msg}",
                      "witness": {"cell": cname, "gate": {k: float(v) for k, v in st.items()}, "inside_gate": bool(inside), "replay_case": replay}})
 
     out = {"viol": viol, "inside": inside, "obs": None, "stats": st, "cell": cname, "finding_cell": None, "crossed": crossed,
@@ -477,8 +504,11 @@ def run_case(case):
         if v is not None and np.isfinite(v):
             maxobs[name] = max(maxobs.get(name, 0.0), float(v))
 
-    for cell, crossing, alt in todo:
+    refused0 = dict(NP_REFUSED)
+    for idx, (cell, crossing, alt) in enumerate(todo):
         inst = gen_instance(rng, tuple(cell), tier, crossing)
+        inst["np_types"] = bool(idx % 2)  # same instances, the options of every second one as NumPy scalars (all routes)
+        cnt("options:numpy_types" if inst["np_types"] else "options:python_types")
         if case["kind"] == "cnls":
             # cnls costs ~1 s per call: the precondition is applied in the generator (redraw until the harness's own
             # statistics put the instance inside the gate; the library is not consulted)
@@ -487,6 +517,7 @@ def run_case(case):
                     break
                 cnt("cnls_redraw")
                 inst = gen_instance(rng, tuple(cell), tier)
+                inst["np_types"] = bool(idx % 2)
         out = check_instance(inst)
         cname = out["cell"]
         tname = f"{inst['test']}/{'Y' if inst['adm'] else 'Z'}"
@@ -536,6 +567,9 @@ def run_case(case):
             cnt("outside_gate")
             cnt(f"outside:{tname}")
             mx(f"outside:res:{tname}", res_all)
+    for k, v in NP_REFUSED.items():
+        if v - refused0.get(k, 0):
+            cnt(f"options:numpy_types_refused:{k}", v - refused0.get(k, 0))
     return {"evals": evals, "keys": keys, "viol": viol[:40], "stats": stats, "maxobs": maxobs, "sample": sample}
 
 
@@ -582,6 +616,9 @@ def finalize(agg):
                 inc.append(f"{t}/{rep}: only {st.get(f'crossing_tau_limits:{t}/{rep}', 0)} instances with crossing time-constant limits (need 20)")
     if st.get("crossing_tau_limits:inside_gate", 0) < 20:
         inc.append(f"only {st.get('crossing_tau_limits:inside_gate', 0)} crossing-limit instances inside the conditioning gate (need 20)")
+    refused = sum(v for k, v in st.items() if k.startswith("options:numpy_types_refused"))
+    if st.get("options:numpy_types", 0) - refused < 1000:
+        inc.append(f"only {st.get('options:numpy_types', 0) - refused} instances ran with NumPy-typed options ({refused} refused up front)")
     for alt in ROUTES[1:]:
         if st.get(f"route:{alt}:inside_gate", 0) < 100 or st.get(f"route:{alt}:nonzero_log_F_ext", 0) < 100:
             inc.append(f"route {alt}: only {st.get(f'route:{alt}:inside_gate', 0)} instances inside the gate / "
